@@ -18,7 +18,7 @@ from pyvc.interp import BoundMethod, ExtName
 from pyvc.values import BOOL, INT, REAL, LstObj, Opaque, OrderVec, SymSeq, Unsupported, fresh
 
 from .common import forall_range
-from .engines_loops import ExeObj, Frame, FrameSeq, SysObj, _fid, _frame_list
+from .engines_loops import ExeObj, Frame, FrameSeq, SysObj, _fid, _frame_list, add_to_path_stub, stop_ghost, stop_inv, stop_post
 
 CP2K_PY = "infretis/classes/engines/cp2k.py"
 GMX_PY = "infretis/classes/engines/gromacs.py"
@@ -83,8 +83,7 @@ class DriverSelf:
             yield st, Opaque("phase_point")
             return
         if name == "add_to_path":
-            st.ghost["appended"] = st.ghost.get("appended", z3.IntVal(0)) + 1
-            yield st, (Opaque("status"), fresh("success", BOOL), fresh("stop", BOOL), fresh("add", BOOL))
+            yield st, add_to_path_stub(st, ex, node)
             return
         raise Unsupported(f"self.{name}")
 
@@ -152,10 +151,10 @@ def _cp2k_post(c):
 reg(Contract(
     "CP2KEngine._propagate_from#consume", src=(CP2K_PY, "CP2KEngine._propagate_from"), slice=_loop_over("frame"),
     cases=[Case("sym", _cp2k_make)],
-    ensures=[("queues_stay_aligned_for_the_next_poll", _cp2k_post),
+    ensures=[("queues_stay_aligned_for_the_next_poll", _cp2k_post), ("reported_success_is_the_outcome_of_the_last_frame", stop_post),
              ("terminated_process_is_waited_for", lambda c: z3.BoolVal(not c.st.ghost.get("killed") or bool(c.st.ghost.get("waited"))))],
     canaries=[("never_consumes", lambda c: c.st.ghost.get("appended", z3.IntVal(0)) == 0)],
-    loops={"for:frame": LoopSpec(_cp2k_inv, ghost_init=lambda c: {"appended": c.st.ghost.get("appended", z3.IntVal(0)), "written": c.st.ghost["written"]})},
+    loops={"for:frame": LoopSpec(lambda ctx: _cp2k_inv(ctx) + stop_inv(ctx), ghost_init=lambda c: dict(stop_ghost(c), written=c.st.ghost["written"]))},
 ))
 
 
@@ -202,9 +201,9 @@ def _gmx_make(ex, st):
 reg(Contract(
     "GromacsEngine._propagate_from#frames", src=(GMX_PY, "GromacsEngine._propagate_from"), slice=_loop_over("data"),
     cases=[Case("sym", _gmx_make)],
-    ensures=[("loop_terminates_normally", lambda c: z3.BoolVal(not c.raised))],
+    ensures=[("loop_terminates_normally", lambda c: z3.BoolVal(not c.raised)), ("reported_success_is_the_outcome_of_the_last_frame", stop_post)],
     canaries=[("never_consumes", lambda c: c.st.ghost.get("appended", z3.IntVal(0)) == 0)],
-    loops={"for:i,data": LoopSpec(lambda ctx: [("no_state_carried_between_frames", z3.BoolVal(True))], ghost_init=lambda c: {"appended": c.st.ghost.get("appended", z3.IntVal(0))})},
+    loops={"for:i,data": LoopSpec(stop_inv, ghost_init=stop_ghost)},
 ))
 
 
@@ -336,10 +335,10 @@ def _ase_make(ex, st):
 reg(Contract(
     "ASEEngine._propagate_from#frames", src=(ASE_PY, "ASEEngine._propagate_from"), slice=_loop_over("i"),
     cases=[Case("sym", _ase_make)],
-    ensures=[("loop_terminates_normally", lambda c: z3.BoolVal(not c.raised))],
+    ensures=[("loop_terminates_normally", lambda c: z3.BoolVal(not c.raised)), ("reported_success_is_the_outcome_of_the_last_frame", stop_post)],
     canaries=[("never_consumes", lambda c: c.st.ghost.get("appended", z3.IntVal(0)) == 0)],
-    loops={"for:i": LoopSpec(lambda ctx: [("one_file_frame_per_phase_point", ctx.st.ghost["written"] == _iv(ctx.v("step_nr")))],
-                             ghost_init=lambda c: {k: c.st.ghost[k] for k in ("ver", "written", "WRITTEN")} | {"appended": c.st.ghost.get("appended", z3.IntVal(0))})},
+    loops={"for:i": LoopSpec(lambda ctx: [("one_file_frame_per_phase_point", ctx.st.ghost["written"] == _iv(ctx.v("step_nr")))] + stop_inv(ctx),
+                             ghost_init=lambda c: {k: c.st.ghost[k] for k in ("ver", "written", "WRITTEN")} | stop_ghost(c))},
 ))
 
 
@@ -479,9 +478,9 @@ def _tmd_make(box_none):
 reg(Contract(
     "TurtleMDEngine._propagate_from#frames", src=(TMD_PY, "TurtleMDEngine._propagate_from"), slice=_loop_over("step"),
     cases=[Case("box", _tmd_make(False)), Case("no_box", _tmd_make(True))],
-    ensures=[("loop_terminates_normally", lambda c: z3.BoolVal(not c.raised))],
+    ensures=[("loop_terminates_normally", lambda c: z3.BoolVal(not c.raised)), ("reported_success_is_the_outcome_of_the_last_frame", stop_post)],
     canaries=[("never_consumes", lambda c: c.st.ghost.get("appended", z3.IntVal(0)) == 0)],
-    loops={"for:i,step": LoopSpec(lambda ctx: [("one_file_frame_per_phase_point", ctx.st.ghost["written"] == _iv(ctx.v("step_nr")))],
-                                  ghost_init=lambda c: {k: c.st.ghost[k] for k in ("written", "WRITTEN", "buf_pos", "buf_vel", "buf_box")} | {"appended": c.st.ghost.get("appended", z3.IntVal(0))})},
+    loops={"for:i,step": LoopSpec(lambda ctx: [("one_file_frame_per_phase_point", ctx.st.ghost["written"] == _iv(ctx.v("step_nr")))] + stop_inv(ctx),
+                                  ghost_init=lambda c: {k: c.st.ghost[k] for k in ("written", "WRITTEN", "buf_pos", "buf_vel", "buf_box")} | stop_ghost(c))},
     overrides={"write_xyz_trajectory": Contract("write_xyz_trajectory", params=["filename", "pos", "vel", "names", "box", "step", "append"], defaults={"step": None, "append": True}, custom=_tmd_write)},
 ))
